@@ -33,6 +33,7 @@ func runC15(c *Ctx, r *Report) {
 	c15r5(c, r)
 	c15r6(c, r)
 	c15r7(c, r)
+	c15r9(c, r)
 	c15r8(c, r)
 }
 
